@@ -603,6 +603,12 @@ Fixpoint trace (fx : fixes) (s : ostate) (ops : list op) : list result :=
 Definition run (fx : fixes) (s : ostate) (ops : list op) : ostate :=
   fold_left (fun s o => r_state (step fx s o)) ops s.
 
+(* the grace period of the tree store (treeStorage.timeout) elapses: every removal that
+   is still scheduled fires (the goroutine of treeStorage.Remove deletes the tree and
+   its cancellation entry) *)
+Definition elapse (s : ostate) : ostate :=
+  set_removal (set_store s (fold_left (fun st id => delete id st) (removal s) (store s))) [].
+
 (* lock discipline of a list of events *)
 Definition access_ok (e : event) : bool :=
   match e with EAccess t h => mem_lk (owner t) h | _ => true end.
